@@ -37,7 +37,7 @@ type purityResult struct {
 	n          int
 }
 
-func isSeqType(t types.Type) bool  { return typeStr(t) == "z/encoding.Sequence" }
+func isSeqType(t types.Type) bool { return typeStr(t) == "z/encoding.Sequence" }
 func isSeqContainer(t types.Type) bool {
 	s, ok := t.Underlying().(*types.Slice)
 	return ok && isSeqType(s.Elem())
@@ -58,9 +58,9 @@ func rulePurity(c *Ctx, rule string) purityResult {
 	}
 	nSeq, nCont, nExpr, nSub := 0, 0, 0, 0
 	type ob struct {
-		fn    *ssa.Function
-		i     int
-		kind  string
+		fn   *ssa.Function
+		i    int
+		kind string
 	}
 	var obs []ob
 	for _, fn := range m.fns {
